@@ -754,6 +754,21 @@ Proof.
 Qed.
 End Live.
 
+(* on a consistent world, despawning t at its own location takes t and nothing else: t becomes dead for good, every
+   other live id stays live *)
+Theorem despawn_takes_exactly_its_target w t ai row k : StoreInv w -> sm_get t (w_ents w) = Some (ai, row) ->
+  match remove_entity w (ai, row) with
+  | ROk _ w' => Dead (w_ents w') t /\ (t <> k -> sm_get k (w_ents w) <> None -> sm_get k (w_ents w') <> None)
+  | RFail _ _ => True
+  end.
+Proof.
+  intros (Hsm & Hloc & _) Ht. destruct (Hloc t ai row Ht) as (a & vals & Ha & Hr). unfold arch_at in Ha.
+  pose proof (remove_entity_dead w ai row a t vals Hsm Ha Hr) as HD.
+  pose proof (fun Hne HL => remove_entity_spares_the_others k w ai row a t vals (conj Hsm HL) Ha Hr Hne) as HS.
+  destruct (remove_entity w (ai, row)) as [[] w'|f w']; [|exact I]. cbn [res_world] in HS.
+  split; [exact (proj2 HD)|]. intros Hne HL. exact (proj2 (HS Hne HL)).
+Qed.
+
 (* not vacuous, and "from the moment its Spawn event has been delivered", not before: on a map with one live
    entity and one recycled slot, the two ids NextKeyIter promises are neither live nor dead; after the two
    insertions both are live *)
